@@ -177,3 +177,10 @@ PROPS["C04"] = {
     "assumptions": ["the presented ID identifies at most one buffered event (IDs unique)",
                     "automatic IDs below the oldest buffered one replay the whole buffer (documented behaviour, C08)"],
 }
+
+# names of the LTS labels by JoeLts/RunJoe.label_kind: the evidence reports which kinds the accepted traces took
+_JOE_LABELS = ["SubEnter", "SubClosed", "SubSend", "SubDone", "SubCtx", "SubUnsub", "Cancel", "PubEnter", "PubSend", "PubClosed",
+               "PubRecv", "ShutEnter", "ShutClose", "ShutDone", "ShutCtx", "HCancel", "LIdle", "LPut", "LPutRes", "LErrs", "LSend",
+               "LFlush", "LFail", "LRemove", "LRemoveSkip", "LReplay", "LRSend", "LRFlush", "LReplayed", "LReject", "LReg", "LDone", "LExit"]
+for _f in ("joe_c06", "joe_c07", "joe_c03", "joe_c17", "joe_c04", "joe_c03_resume"):
+    FAMILIES[_f]["cover_names"] = _JOE_LABELS
